@@ -9,6 +9,38 @@ BASELINE = ("cd /repo && cargo nextest run --workspace --no-fail-fast --test-thr
             "|| cargo test --workspace --no-fail-fast --offline")
 
 CHECKS = {
+    'C01': dict(technique="Coq proofs (structural induction over documents / child lists; renderer refinement for every width) over a hand-written Gallina model of the whole converter pipeline (attr passes, ~60 converters, four stylists, pretty's renderer, post-processing) + generated tables (gen/Tables.v, gen/Kind.v) + differential correspondence of the extracted model with the implementation (document, bytes, counter) on every case + property oracle search",
+        text="Partial proof. Proved for all trees/configs/widths over the model: every accepted output is the stripped rendering of the converter's document and the emitted atoms are atoms of that document in document order, a group being flat or broken as a whole (C01_output_atoms_partial, via the renderer refinement theorems render_atoms/render_lay); optional delimiters appear exactly when the body is broken and a flat body stays on one line (C01_optional_paren_sound); markup is re-emitted as its source lines in order (C01_markup_source_lines). NOT proved: token conservation across all converters and the re-parsed half (C01_full is stated over an abstract parser). The model (total by construction, byte-exact against the implementation) is tied to the code by K2/K5/K7 on every case, and the skeleton oracle (re-parse with typst_syntax, compare trees modulo layout) searches for a failing input. Known findings by class: comments inside equations (F10/F13), block comments sharing a line with list items (F15), empty term (F16), multi-line '@typstyle off' regions (F17), exotic trailing blanks (F18).",
+        note="Trusted: Coq kernel (closed under the global context, no axioms); extraction (ExtrOcamlBasic only) and the OCaml driver; translators gen_kind/gen_tables/gen_cli; the Rust harness with its oracles. Modelled, not verified: typst-syntax (parser: its trees are the model's input), the `pretty` renderer and unicode-width (restated / harvested, compared on every case). K5 and the oracles are sampled (differential testing).",
+        design='§4 C01'),
+    'C04': dict(technique="Coq proofs (structural induction over documents / child lists; renderer refinement for every width) over a hand-written Gallina model of the whole converter pipeline (attr passes, ~60 converters, four stylists, pretty's renderer, post-processing) + generated tables (gen/Tables.v, gen/Kind.v) + differential correspondence of the extracted model with the implementation (document, bytes, counter) on every case + property oracle search",
+        text='Partial proof. Proved over the renderer model for every document and width: the renderer refines the mode-aware layout relation (C04_render_refines_layouts), a group laid out flat never contains a line break (C04_flat_group_one_line), optional parentheses/braces appear exactly when the body is broken (C04_optional_paren_sound), a line comment is one atom with its exact text (C04_line_comment_atom). NOT proved: that the output re-parses (needs the parser). Tie: K5 (model bytes == implementation bytes) on every case; oracle: typst_syntax reports no error in the output, at widths down to 0. Known finding class: comments inside equations (F10).',
+        note="Trusted: Coq kernel (closed under the global context, no axioms); extraction (ExtrOcamlBasic only) and the OCaml driver; translators gen_kind/gen_tables/gen_cli; the Rust harness with its oracles. Modelled, not verified: typst-syntax (parser: its trees are the model's input), the `pretty` renderer and unicode-width (restated / harvested, compared on every case). K5 and the oracles are sampled (differential testing).",
+        design='§4 C04'),
+    'C05': dict(technique="Coq proofs (structural induction over documents / child lists; renderer refinement for every width) over a hand-written Gallina model of the whole converter pipeline (attr passes, ~60 converters, four stylists, pretty's renderer, post-processing) + generated tables (gen/Tables.v, gen/Kind.v) + differential correspondence of the extracted model with the implementation (document, bytes, counter) on every case + property oracle search",
+        text="Partial proof. Proved for all trees/configs: the library refuses iff the tree is erroneous (C05_refuses_iff_erroneous) and format_with_width then returns the input (C05_convenience_returns_input); the converter model is a total structural recursion (no fuel) and the renderer's fuel is sufficient for every document and width (C05_renderer_terminates, C05_never_out_of_fuel), so a well-formed tree yields text or a Panic at a named site and nothing else (C05_wellformed_total_partial); the comment.rs unwrap/unreachable sites are unreachable (C05_comment_sites_unreachable). NOT proved: unreachability of the remaining Panic sites under the CST schema; native stack depth and allocation are runtime. Tie: accepted/refused/panicked class equality between model and implementation on every case incl. damaged sources and nested families; oracle: catch_unwind + refusal iff erroneous + format_with_width identity.",
+        note="Trusted: Coq kernel (closed under the global context, no axioms); extraction (ExtrOcamlBasic only) and the OCaml driver; translators gen_kind/gen_tables/gen_cli; the Rust harness with its oracles. Modelled, not verified: typst-syntax (parser: its trees are the model's input), the `pretty` renderer and unicode-width (restated / harvested, compared on every case). K5 and the oracles are sampled (differential testing).",
+        design='§4 C05'),
+    'C06': dict(technique="Coq proofs (structural induction over documents / child lists; renderer refinement for every width) over a hand-written Gallina model of the whole converter pipeline (attr passes, ~60 converters, four stylists, pretty's renderer, post-processing) + generated tables (gen/Tables.v, gen/Kind.v) + differential correspondence of the extracted model with the implementation (document, bytes, counter) on every case + property oracle search",
+        text="Partial proof. Proved: the comment converter never fails on a comment node (C06_comment_total); a line comment is one atom with its exact text (C06_line_comment_text); every layout of a block comment is the comment's own lines in order, each being the source line minus leading White_Space only (C06_block_comment_text, incl. the min-indentation argument of align_multiline); in markup a comment contributes in place among its siblings (C06_markup_comment_in_place). NOT proved: order/neighbourhood of comments across all converters. Tie: K5 on every case; oracle: comment tokens with neighbouring words, input vs re-parsed output. Known finding class: comments inside equations (F10).",
+        note="Trusted: Coq kernel (closed under the global context, no axioms); extraction (ExtrOcamlBasic only) and the OCaml driver; translators gen_kind/gen_tables/gen_cli; the Rust harness with its oracles. Modelled, not verified: typst-syntax (parser: its trees are the model's input), the `pretty` renderer and unicode-width (restated / harvested, compared on every case). K5 and the oracles are sampled (differential testing).",
+        design='§4 C06'),
+    'C07': dict(technique="Coq proofs (structural induction over documents / child lists; renderer refinement for every width) over a hand-written Gallina model of the whole converter pipeline (attr passes, ~60 converters, four stylists, pretty's renderer, post-processing) + generated tables (gen/Tables.v, gen/Kind.v) + differential correspondence of the extracted model with the implementation (document, bytes, counter) on every case + property oracle search",
+        text="Partial proof. Proved: the attribute pass marks the directive comment and the next sibling that is not a comment/Space/Hash, as a whole and without descending (C07_directive_marks_next_sibling, C07_no_format_is_children_pass, C07_mark_keeps_text); each of the four conversion entry points emits a marked node as ONE atom holding its source text (C07_expr_verbatim, C07_pattern_verbatim, C07_math_verbatim, C07_code_body_verbatim), which the renderer emits verbatim at every width. NOT proved: that every expression child reaches one of these entry points. Tie: K5 on every case (G2 inserts directives at random token gaps); oracle: the protected node's source text occurs in the output, line-end blanks apart.",
+        note="Trusted: Coq kernel (closed under the global context, no axioms); extraction (ExtrOcamlBasic only) and the OCaml driver; translators gen_kind/gen_tables/gen_cli; the Rust harness with its oracles. Modelled, not verified: typst-syntax (parser: its trees are the model's input), the `pretty` renderer and unicode-width (restated / harvested, compared on every case). K5 and the oracles are sampled (differential testing).",
+        design='§4 C07'),
+    'C08': dict(technique="Coq proofs (structural induction over documents / child lists; renderer refinement for every width) over a hand-written Gallina model of the whole converter pipeline (attr passes, ~60 converters, four stylists, pretty's renderer, post-processing) + generated tables (gen/Tables.v, gen/Kind.v) + differential correspondence of the extracted model with the implementation (document, bytes, counter) on every case + property oracle search",
+        text="Proof of the parser-free core, for every Markup node, context, child conversion and width: the node's document is start ++ lines ++ end where start/end hold only blanks/line breaks, the lines are the source's lines in order (the line nodes are the children minus Space/Parbreak tokens; a Space kept inside a line holds no line break), every interior Space contributes exactly one U+0020 atom, every Text its exact text, and a line is followed by exactly `breaks` mandatory line breaks (C08_markup_structure, C08_lines_are_source_lines), and these atoms are what the renderer emits at every width (C08_width_independent). The re-parsed half is decided by K5 + the per-Markup-node oracle on every case. Known finding classes: F15, F16, F17, F18.",
+        note="Trusted: Coq kernel (closed under the global context, no axioms); extraction (ExtrOcamlBasic only) and the OCaml driver; translators gen_kind/gen_tables/gen_cli; the Rust harness with its oracles. Modelled, not verified: typst-syntax (parser: its trees are the model's input), the `pretty` renderer and unicode-width (restated / harvested, compared on every case). K5 and the oracles are sampled (differential testing).",
+        design='§4 C08'),
+    'C09': dict(technique="Coq proofs (structural induction over documents / child lists; renderer refinement for every width) over a hand-written Gallina model of the whole converter pipeline (attr passes, ~60 converters, four stylists, pretty's renderer, post-processing) + generated tables (gen/Tables.v, gen/Kind.v) + differential correspondence of the extracted model with the implementation (document, bytes, counter) on every case + property oracle search",
+        text='Partial proof. Proved for every Math node that is not format-disabled, every context, child conversion and width: the children contribute in order, a Space child is a mandatory line break if it held one and exactly one U+0020 otherwise, nothing is emitted between children (C09_math_structure, C09_width_independent). NOT proved: MathDelimited edges, equation delimiters, call arguments (decided by K5 and the oracle on every case). Known finding class: comments inside equations (F13).',
+        note="Trusted: Coq kernel (closed under the global context, no axioms); extraction (ExtrOcamlBasic only) and the OCaml driver; translators gen_kind/gen_tables/gen_cli; the Rust harness with its oracles. Modelled, not verified: typst-syntax (parser: its trees are the model's input), the `pretty` renderer and unicode-width (restated / harvested, compared on every case). K5 and the oracles are sampled (differential testing).",
+        design='§4 C09'),
+    'C10': dict(technique="Coq proofs (structural induction over documents / child lists; renderer refinement for every width) over a hand-written Gallina model of the whole converter pipeline (attr passes, ~60 converters, four stylists, pretty's renderer, post-processing) + generated tables (gen/Tables.v, gen/Kind.v) + differential correspondence of the extracted model with the implementation (document, bytes, counter) on every case + property oracle search",
+        text='Proof with a known finding. Proved: every leaf carrying literal content is converted to one atom holding its exact text in every context, disabled or not (C10_literal_leaf_exact); text atoms reach the rendered string unchanged at every width (C10_atoms_rendered_verbatim, C10_rendered_string_is_atoms). The full property is FALSE of the faithful model: C10_refuted exhibits `#let s = "a  <LF>b"` losing its blanks in post-processing (F4, listed as a known finding by class: Str/Raw with White_Space before a line feed). Tie: K5 on every case; oracle: literal tokens and ast::Raw::lines/lang/block, input vs re-parsed output.',
+        note="Trusted: Coq kernel (closed under the global context, no axioms); extraction (ExtrOcamlBasic only) and the OCaml driver; translators gen_kind/gen_tables/gen_cli; the Rust harness with its oracles. Modelled, not verified: typst-syntax (parser: its trees are the model's input), the `pretty` renderer and unicode-width (restated / harvested, compared on every case). K5 and the oracles are sampled (differential testing).",
+        design='§4 C10'),
     "C11": dict(
         technique="Coq proof (closed, unbounded, by list induction) of strip_hygiene over a hand-written Gallina model of "
                   "strip_trailing_whitespace + differential correspondence (extracted OCaml and vm_compute vs the Rust function)",
